@@ -141,6 +141,18 @@ fill(IMB_JOB *job, int kind, uint64_t id, unsigned len)
                 job->u.GCM.aad_len_in_bytes = 8;
                 job->auth_tag_output_len_in_bytes = 16;
                 break;
+        case 10: /* hash-then-cipher order with a NULL hash and a cipher that parks (CBC encrypt) */
+                job->cipher_mode = IMB_CIPHER_CBC;
+                job->chain_order = IMB_ORDER_HASH_CIPHER;
+                break;
+        case 11: /* hash then cipher, both park: HMAC-SHA1 over the plaintext, then CBC encrypt */
+                job->cipher_mode = IMB_CIPHER_CBC;
+                job->chain_order = IMB_ORDER_HASH_CIPHER;
+                job->hash_alg = IMB_AUTH_HMAC_SHA_1;
+                job->u.HMAC._hashed_auth_key_xor_ipad = ipad;
+                job->u.HMAC._hashed_auth_key_xor_opad = opad;
+                job->auth_tag_output_len_in_bytes = 12;
+                break;
         case 9: /* invalid: NULL source */
                 job->cipher_mode = IMB_CIPHER_CBC;
                 job->src = NULL;
